@@ -66,6 +66,51 @@ def RxArgs.inDomain (a : RxArgs) : Bool := a.position.getD 1 ≥ 1 && a.occurren
 /-- excluded: C10/regexp-substr-e-default-group -/
 def RxArgs.ok (a : RxArgs) : Bool := !((a.params.getD []).contains 'e' && a.group.isNone)
 
+/-! ## REGEXP_REPLACE (transforms.py `regex_replace`; cursor.py: `dollar_quoted_string` runs second in the pipeline) -/
+
+/-- how a string argument reaches a rewrite: a `Literal`, a `RawString` (`$$…$$`), or some other expression -/
+inductive StrNode where
+  | lit | raw | expr
+deriving DecidableEq, Repr
+
+/-- `dollar_quoted_string`: a `$$…$$` string becomes a plain literal with the same content -/
+def dollarQuotedString : StrNode → StrNode
+  | .raw => .lit
+  | n => n
+
+/-- `pattern.this.replace("\\\\", "\\")` (regex_replace and regex_substr): applied to the pattern text AFTER the SQL
+    tokenizer has already processed the literal's escapes -/
+def unescapeBackslashes : List Char → List Char
+  | '\\' :: '\\' :: rest => '\\' :: unescapeBackslashes rest
+  | c :: rest => c :: unescapeBackslashes rest
+  | [] => []
+
+/-- the optional arguments of `REGEXP_REPLACE(subject, pattern [, replacement [, position [, occurrence [, parameters]]]])` -/
+structure RrArgs where
+  hasReplacement : Bool := false
+  position : Option Nat := none
+  occurrence : Option Nat := none
+  params : Option (List Char) := none
+deriving DecidableEq, Repr
+
+/-- `len(expression.args)`: subject, pattern and every optional argument that was given -/
+def RrArgs.count (a : RrArgs) : Nat :=
+  2 + (if a.hasReplacement then 1 else 0) + (if a.position.isSome then 1 else 0) + (if a.occurrence.isSome then 1 else 0) +
+    (if a.params.isSome then 1 else 0)
+
+inductive RrOut where
+  | rewritten (defaultReplacement : Bool)   -- DuckDB `regexp_replace(s, p, r, 'g')`: every match replaced, from the start
+  | rejected                                -- NotImplementedError
+  | untouched                               -- the pattern is not a literal: passed on without the 'g' flag
+deriving DecidableEq, Repr
+
+def rrRule (pattern : StrNode) (a : RrArgs) : RrOut :=
+  if pattern = .lit then (if a.count > 3 then .rejected else .rewritten (!a.hasReplacement)) else .untouched
+
+/-- documented: with position 1 (default), occurrence 0 (default: all) and no parameters every match is replaced; the
+    default replacement is the empty string -/
+def RrArgs.docIsReplaceAll (a : RrArgs) : Bool := a.position.getD 1 = 1 && a.occurrence.getD 0 = 0 && a.params.isNone
+
 /-! ## TO_NUMBER / TO_DECIMAL / TO_NUMERIC and TRY_ forms (transforms.py:1070-1172) -/
 
 /-- a literal argument after the value: a string (a format) or a number -/
